@@ -30,9 +30,9 @@ theorem keyDescription_schema_published :
        ⟨"VerifiedBootState", .enum, none, false, false, false⟩, ⟨"VerifiedBootHash", .bytes, none, false, false, false⟩] ∧
     Generated.Asn1Schema.appleAnonymousAttestation = [⟨"Nonce", .bytes, some 1, true, false, false⟩] ∧
     Generated.Asn1Schema.decoderCalls =
-      [("UnmarshalKeyDescription", "asn1.Unmarshal(raw,keyDescription)"),
-       ("getCertificateAppleNonce", "asn1.Unmarshal(extension.Value,&value)"),
-       ("getCertificateAAGUID", "asn1.Unmarshal(extension.Value,&raw)")] := by
+      [("UnmarshalKeyDescription", "asn1.Unmarshal([]byte,*android.KeyDescription)"),
+       ("getCertificateAppleNonce", "asn1.Unmarshal([]byte,*webauthn.appleAnonymousAttestation)"),
+       ("getCertificateAAGUID", "asn1.Unmarshal([]byte,*[]byte)")] := by
   exact ⟨rfl, rfl, rfl, rfl⟩
 
 /-! ## Framing: the header parser is strict DER and `encTL` is its inverse -/
